@@ -333,9 +333,15 @@ def window_rules(prog, res):
     clr = prog.fn("ZSTD_window_clear")
     wc = reset.written_paths(clr, "ZSTD_window_t")
     ok = set(wc) == {("lowLimit",), ("dictLimit",)}
+    from_end = 0
     for b, i, x in clr.events(lambda y: y.get("k") == "asg"):
         if strip_casts(x["lhs"]).get("k") == "mem":
-            ok = ok and {"f:nextSrc", "f:base"} <= clr.anchors(x["rhs"], depth=3)
+            an = clr.anchors(x["rhs"], depth=3)
+            if {"f:nextSrc", "f:base"} <= an:
+                from_end += 1
+            else:       # or a copy of the other limit, which was itself set from the end
+                ok = ok and bool({"f:lowLimit", "f:dictLimit"} & an)
+    ok = ok and from_end >= 1
     res.check(ok, R, "clear:limits=end", clr.loc, "both limits move to nextSrc - base: nothing older is referencable", "window_clear no longer hides all previous content")
     res.need(R, 9)
 
